@@ -26,7 +26,7 @@ TOLERANCES = {"W,U,A": "bit-identical (torch.equal)"}
 
 @st.composite
 def _history_case(draw, tier):
-    cfg = draw(history.configs(wrappers=("interval", "interval", "interval", "reverse", "path", "tree")))
+    cfg = draw(history.configs(wrappers=("interval", "interval", "interval", "reverse", "reverse2", "path", "tree")))
     big = tier == "thorough"
     ops = draw(history.op_lists(cfg, min_ops=2, max_ops=20 if big else 12, max_sweep=120 if big else 50,
                                 allow_point=True))
